@@ -28,6 +28,8 @@ where
     }
 
     fn reset(&mut self) -> Result<()> {
+        #[cfg(anydb_verif)]
+        rawdb::verif::lock_rw("pages", rawdb::verif::LockMode::Write, &self.pages);
         self.pages.write().reset();
         self.truncate_if_needed_at(0)?;
         self.base.reset_base()
